@@ -21,6 +21,37 @@ def match_known(known, ob):
             return '%s [%s]' % (desc, ob.name)
     return None
 
+def guarded(rp, ob, limit=240):
+    """a replay (model extraction in-process, go test / node outside) runs in a forked child with a wall-clock limit: a
+    solver call that does not honour its timeout must not hang the check"""
+    import multiprocessing
+    ctx = multiprocessing.get_context('fork')
+    rd, wr = ctx.Pipe(duplex=False)
+    def child():
+        try:
+            r = rp(ob, ob.model)
+        except Exception as e:
+            r = {'violates': False, 'note': 'replay raised %r' % (e,)}
+        try:
+            wr.send(json.loads(json.dumps(r, default=str)))
+        except Exception:
+            pass
+        os._exit(0)
+    pr = ctx.Process(target=child)
+    pr.start()
+    res = None
+    if rd.poll(limit):
+        try:
+            res = rd.recv()
+        except EOFError:
+            res = None
+    if pr.is_alive():
+        pr.kill()
+    pr.join(5)
+    if res is None:
+        return {'violates': False, 'note': 'replay did not finish within %d s' % limit}
+    return res
+
 def make_replay(rep, ob, concrete=None):
     d = os.path.join(os.environ.get('VERIF_OUT', ROOT), 'replays', rep.pid)
     os.makedirs(d, exist_ok=True)
@@ -32,7 +63,7 @@ def make_replay(rep, ob, concrete=None):
     rp = ob.meta.get('replayer')
     if ob.answer == 'sat' and rp is not None:
         try:
-            confirmed = rp(ob, ob.model)
+            confirmed = guarded(rp, ob)
         except Exception as e:
             data['replay_error'] = repr(e)
     if confirmed and confirmed.get('violates'):
